@@ -1418,7 +1418,11 @@ class Torrent():
             piece_count = int(len(info['pieces']) / 20)
             # NOTE: Floor division is exact for big integers and does not raise
             #       OverflowError/ValueError for inf/nan.
-            exp_piece_count = -(-info['length'] // info['piece length'])
+            try:
+                exp_piece_count = -(-info['length'] // info['piece length'])
+            except OverflowError as e:
+                # float length and a piece length that is too large for a float
+                raise error.MetainfoError(f"Invalid ['info']['length'] or ['info']['piece length']: {e}")
             if piece_count != exp_piece_count:
                 raise error.MetainfoError(f'Expected {exp_piece_count} pieces but there are {piece_count}')
 
@@ -1448,8 +1452,12 @@ class Torrent():
             # - validate() should ensure that ['info']['pieces'] is math.ceil(self.size /
             #   self.piece_size) bytes long.
             piece_count = int(len(info['pieces']) / 20)
-            exp_piece_count = -(-sum(fileinfo['length'] for fileinfo in info['files'])
-                                // info['piece length'])
+            try:
+                exp_piece_count = -(-sum(fileinfo['length'] for fileinfo in info['files'])
+                                    // info['piece length'])
+            except OverflowError as e:
+                # float lengths combined with integers that are too large for a float
+                raise error.MetainfoError(f"Invalid ['info']['files'] lengths or ['info']['piece length']: {e}")
             if piece_count != exp_piece_count:
                 raise error.MetainfoError(f'Expected {exp_piece_count} pieces but there are {piece_count}')
 
